@@ -158,7 +158,8 @@ PushHints(toks, tg, seg) == LET q == PushStates(toks, InitSt, seg) IN [i \in DOM
 \* One loop iteration per read (at most one per byte of the stream); a = [st, si (current segment), off (bytes of it
 \* already taken), asks, stop].
 PullStep(toks, need, tg, seg, a) ==
-    IF a.stop \/ Done(toks, a.st) \/ a.si > Len(seg) THEN [a EXCEPT !.stop = TRUE]
+    IF a.stop THEN a
+    ELSE IF Done(toks, a.st) \/ a.si > Len(seg) THEN [a EXCEPT !.stop = TRUE]
     ELSE LET h == Hint(toks, tg, a.st)
              got == MinOf(h, seg[a.si] - a.off)
              last == a.off + got = seg[a.si]
